@@ -36,7 +36,11 @@ func RenderTokens(s []any) (string, error) {
 			sb.WriteString(" ")
 		}
 		if k == "Str" {
-			sb.WriteString(QuoteStr(v))
+			b, ok := Bytes(tt[1])
+			if !ok {
+				return "", fmt.Errorf("bad Str token %v", t)
+			}
+			sb.WriteString(QuoteStr(string(b)))
 		} else if k == "Num" {
 			txt, ok := proj.DecText(tt[1])
 			if !ok {
